@@ -1337,6 +1337,21 @@ func (s *Server) bind(mcpConn Connection, conn *jsonrpc2.Connection, state *Serv
 	return ss
 }
 
+// serverBinder binds sessions for [Server.Connect]: it additionally records the
+// protocol versions the transport can serve before any message is dispatched.
+type serverBinder struct {
+	*Server
+	supportedVersions []string
+}
+
+func (b serverBinder) bind(mcpConn Connection, conn *jsonrpc2.Connection, state *ServerSessionState, onClose func()) *ServerSession {
+	ss := b.Server.bind(mcpConn, conn, state, onClose)
+	ss.mu.Lock()
+	ss.supportedVersions = b.supportedVersions
+	ss.mu.Unlock()
+	return ss
+}
+
 // disconnect implements the binder[*ServerSession] interface, so that
 // Servers can be connected using [connect].
 func (s *Server) disconnect(cc *ServerSession) {
@@ -1380,7 +1395,10 @@ func (s *Server) Connect(ctx context.Context, t Transport, opts *ServerSessionOp
 	}
 
 	s.opts.Logger.Info("server connecting")
-	ss, err := connect(ctx, t, s, state, onClose, s.opts.Logger)
+	// The version list is installed by the binder, before the session starts reading:
+	// some transports (HTTP+SSE, a pipe with an eager peer) can deliver server/discover
+	// while Connect is still running.
+	ss, err := connect(ctx, t, serverBinder{s, filterSupportedVersions(t)}, state, onClose, s.opts.Logger)
 	if err != nil {
 		s.opts.Logger.Error("server connect error", "error", err)
 		return nil, err
